@@ -16,6 +16,7 @@ def auth_tables():
 #include "first.h"
 #include "base64.c"
 #include "mod_auth_api.h"
+#include "http_kv.c"
 #include <stdio.h>
 int main(void){
   if (sizeof(base64_standard_reverse_table) != 128) return 3;
@@ -26,10 +27,15 @@ int main(void){
   printf("\n%d %d %d %d %d %d %d\n", HTTP_AUTH_DIGEST_SESS, HTTP_AUTH_DIGEST_MD5, HTTP_AUTH_DIGEST_SHA256,
          HTTP_AUTH_DIGEST_SHA512_256, HTTP_AUTH_DIGEST_MD5_BINLEN, HTTP_AUTH_DIGEST_SHA256_BINLEN,
          (int)sizeof(((http_auth_info_t *)0)->userbuf));
+  /* methods http_method_key_get() maps to a usable (>= 0) enum value: all but the final "PRI" */
+  { int n = (int)(sizeof(http_methods)/sizeof(*http_methods));
+    for (int i = 0; i < n-2; ++i) { if (!http_methods[i].used) return 5; printf("%s ", http_methods[i].ptr); }
+    if (0 != strcmp(http_methods[n-2].ptr, "PRI") || http_methods[n-1].used) return 6;
+    printf("\n"); }
   return 0; }
 ''')
     lines = out.strip().split("\n")
-    if len(lines) != 3:
+    if len(lines) != 4:
         raise ExtractError("AuthTables: unexpected dumper output")
     rev = [int(x) for x in lines[0].split()]
     alpha = [int(x) for x in lines[1].split()]
@@ -45,5 +51,11 @@ int main(void){
     for n, v in zip(["authDigestSess", "authDigestMd5", "authDigestSha256", "authDigestSha512_256",
                      "authMd5BinLen", "authSha256BinLen", "authUserbufSize"], consts):
         s += "def %s : Nat := %d\n" % (n, v)
+    meths = lines[3].split()
+    if "GET" not in meths or "CONNECT" not in meths or len(meths) < 8:
+        raise ExtractError("AuthTables: unexpected http_methods[] table")
+    s += "\n/-- http_kv.c: http_methods[] names that http_method_key_get() accepts (ASCII codes) -/\n"
+    s += "def httpMethods : List (List Nat) := [\n" + ",\n".join(
+        "  [" + ", ".join(str(ord(c)) for c in m) + "]" for m in meths) + "]\n"
     s += "\nend LtVerif.Extracted\n"
     return s
